@@ -163,8 +163,9 @@ def posPass (u : UInfo) (members : List Id) (forceOptional : Bool) : List Arg â†
 
 def joinSp (xs : List Bytes) : Bytes := xs.flatMap fun x => x ++ [32]
 
-/-- `write_args(incls, force_optional)`: the pieces, each followed by one space in the output -/
-def argPieces (c : Cmd) (u : UInfo) (required : List Id) (incls : List Id) (forceOptional : Bool) : Option (List Bytes) :=
+/-- the three collections `write_args(incls, force_optional)` fills: required options, required groups, positional slots -/
+def argParts (c : Cmd) (u : UInfo) (required : List Id) (incls : List Id) (forceOptional : Bool) :
+    Option (List Bytes Ã— List Bytes Ã— List (Option Bytes)) :=
   let reqs := unrolledReqs c required relevantStatic ++ incls
   match groupPass c u (fun _ => false) reqs [] [] with
   | none => none
@@ -174,8 +175,12 @@ def argPieces (c : Cmd) (u : UInfo) (required : List Id) (incls : List Id) (forc
     | some (opts, pos0) =>
       match posPass u members forceOptional c.positionals pos0 with
       | none => none
-      | some pos =>
-        some ((if forceOptional then [] else opts ++ groups) ++ pos.filterMap id)
+      | some pos => some (opts, groups, pos)
+
+/-- `write_args(incls, force_optional)`: the pieces, each followed by one space in the output -/
+def argPieces (c : Cmd) (u : UInfo) (required : List Id) (incls : List Id) (forceOptional : Bool) : Option (List Bytes) :=
+  (argParts c u required incls forceOptional).map fun (opts, groups, pos) =>
+    (if forceOptional then [] else opts ++ groups) ++ pos.filterMap id
 
 def writeArgs (c : Cmd) (u : UInfo) (required : List Id) (incls : List Id) (forceOptional : Bool) : Option Bytes :=
   (argPieces c u required incls forceOptional).map joinSp
